@@ -607,6 +607,28 @@ def eng2(ctx: Ctx) -> None:
     # (4) replace vs insert
     disp = [s_ for s_ in rest if isinstance(s_, ast.If) and ivar in norm(s_.test) and ninner in norm(s_.test)]
     if len(disp) != 1:
+        # the dispatch may test a local computed before (insert_only = ...): find the `if` by what it guards and resolve the local
+        import copy as _copy
+        from ..emit import subst as _subst
+        cands = [s_ for s_ in rest if isinstance(s_, ast.If) and any(isinstance(x, ast.Call) and norm(x.func) == "to_unwrap.popleft" for x in ast.walk(s_))
+                 and any(isinstance(x, ast.While) for b_ in (s_.body, s_.orelse) for y in b_ for x in ast.walk(y))]
+        if len(cands) == 1:
+            env_ = {}
+            for a_ in rest:
+                if isinstance(a_, ast.Assign) and len(a_.targets) == 1 and isinstance(a_.targets[0], ast.Name) and a_.lineno <= cands[0].lineno and a_ is not cands[0]:
+                    env_[a_.targets[0].id] = a_.value
+            env_.pop(ivar, None)
+            d0 = _copy.copy(cands[0])
+            d0.test = _subst(cands[0].test, env_)
+            eqs = [c_ for c_ in ast.walk(d0.test) if isinstance(c_, ast.Compare) and any(isinstance(o_, (ast.Eq, ast.NotEq)) for o_ in c_.ops) and ninner in norm(c_)]
+            if eqs:
+                ctx.R.fail("ENG-2", mod, cands[0], f"the insert form (result ends in {ninner}) is recognised by an equality comparison `{norm(eqs[0])[:60]}` instead of the identity of the last item: "
+                           "a list and a tuple never compare equal, so a hook that returns a list ending in next_inner has the rest of the stack replaced instead of kept; "
+                           "and == runs user __eq__ on stack items", construct="replace/insert decided by ==")
+                return
+            if ivar in norm(d0.test) and ninner in norm(d0.test):
+                disp = [d0]
+    if len(disp) != 1:
         ctx.R.undecided("ENG-2", "replace/insert dispatch not found")
         return
     d = disp[0]
